@@ -10,8 +10,11 @@ import (
 	"bytes"
 	"context"
 	"encoding/json"
+	"errors"
 	"fmt"
+	"io"
 	"math/rand/v2"
+	"net/http"
 	"net/http/httptest"
 	"os"
 	"path/filepath"
@@ -66,6 +69,7 @@ type input struct {
 	Op     ops.Op
 	Dump   bool // final sequential full-state read
 	Faulty bool // the file system failed for parts of this history: a mutating call may report a failure, and then has no effect
+	Lost   bool // the server carried the request out but its reply never reached the client: the call took effect (once), its result is unknown
 }
 
 type output struct {
@@ -83,11 +87,17 @@ func model(initial *refmodel.Model) porcupine.Model {
 				return m.Canon() == o.State, m
 			}
 			if !i.Op.Kind.Mutating() {
+				if i.Lost {
+					return true, m
+				}
 				want := ops.ApplyModel(m, nil, true, i.Op)
 				return ops.Agree(want, o.Res), m
 			}
 			c := m.Clone()
 			want := ops.ApplyModel(c, nil, true, i.Op)
+			if i.Lost {
+				return true, c
+			}
 			if i.Faulty && o.Res.Class == refmodel.Other && want.Class != refmodel.Other {
 				return true, m // the call failed (its save could not be written): it is a no-op at its linearization point
 			}
@@ -112,15 +122,22 @@ type hist struct {
 	ops    []porcupine.Operation
 	faulty bool
 	failed int
+	lost   int
 }
+
+const lostReply = "verif: the reply was lost on its way back"
 
 func (h *hist) record(client int, op ops.Op, do doer) {
 	call := h.clock.Add(1)
 	res := do(op)
 	ret := h.clock.Add(1)
+	lost := strings.Contains(res.Err, lostReply)
 	res.Err = "" // messages are not part of the comparison
 	h.mu.Lock()
-	h.ops = append(h.ops, porcupine.Operation{ClientId: client, Input: input{Op: op, Faulty: h.faulty}, Call: call, Output: output{Res: res}, Return: ret})
+	if lost {
+		h.lost++
+	}
+	h.ops = append(h.ops, porcupine.Operation{ClientId: client, Input: input{Op: op, Faulty: h.faulty, Lost: lost}, Call: call, Output: output{Res: res}, Return: ret})
 	if h.faulty && res.Class == refmodel.Other && op.Kind.Mutating() {
 		h.failed++
 	}
@@ -204,7 +221,7 @@ func TestC14(t *testing.T) {
 	}
 	close(jobs)
 	wg.Wait()
-	r.Require("histories_db", "histories_http", "histories_linearizable", "overlapping_histories", "list_overlapping_two_puts", "same_value_puts_overlapping", "histories_over_loopback_sockets", "histories_with_failing_file_system", "calls_failed_by_io_error_under_concurrency")
+	r.Require("histories_db", "histories_http", "histories_linearizable", "overlapping_histories", "list_overlapping_two_puts", "same_value_puts_overlapping", "histories_over_loopback_sockets", "histories_with_failing_file_system", "calls_failed_by_io_error_under_concurrency", "calls_whose_reply_was_lost")
 	r.Rule("three history shapes: 'global-with-list' (4 clients x 5 ops: list/put/activate/get/delete on the first and last of 32 names, checked unpartitioned), 'per-key' (7 clients x 7 ops of all kinds on 3 names, partitioned by name), 'same-value-burst' (8 spin-synchronised clients putting the same value); audit sink injects yields/microsecond sleeps; DB API and HTTP handlers. Every history + a final sequential state read is decided by porcupine. Distinct = (shape, level, hash of the observed overlap pattern)")
 }
 
@@ -271,7 +288,23 @@ func oneHistory(t *testing.T, r *evid.Run, dir string, idx int, sh shape, level 
 			}
 			hs := httptest.NewServer(srvAny.Mux)
 			defer hs.Close()
-			cl := setec.Client{Server: hs.URL, DoHTTP: hs.Client().Do}
+			// now and then the reply to a request the server has carried out is lost on its way back (a broken
+			// connection): the client reports an error; the call has happened exactly once all the same
+			var dropMu sync.Mutex
+			drng := r.Rand(uint64(idx) + 1<<42)
+			inner := hs.Client().Do
+			cl := setec.Client{Server: hs.URL, DoHTTP: func(req *http.Request) (*http.Response, error) {
+				resp, err := inner(req)
+				dropMu.Lock()
+				drop := drng.IntN(7) == 0 && !sh.faulty // (with a failing file system as well the outcome of such a call would be unknowable)
+				dropMu.Unlock()
+				if err == nil && drop {
+					io.Copy(io.Discard, resp.Body)
+					resp.Body.Close()
+					return nil, errors.New(lostReply)
+				}
+				return resp, err
+			}}
 			do = func(op ops.Op) ops.Result { return viaClient(cl, op) }
 			r.Count("histories_over_loopback_sockets", 1)
 		}
@@ -341,6 +374,7 @@ func oneHistory(t *testing.T, r *evid.Run, dir string, idx int, sh shape, level 
 	gate.Store(true)
 	wg.Wait()
 	<-faultDone
+	r.Count("calls_whose_reply_was_lost", h.lost)
 	if sh.faulty {
 		r.Count("histories_with_failing_file_system", 1)
 		r.Count("calls_failed_by_io_error_under_concurrency", h.failed)
@@ -422,8 +456,15 @@ var _ = rand.IntN
 // viaClient performs op through the real client library.
 func viaClient(cl setec.Client, op ops.Op) ops.Result {
 	ctx := context.Background()
-	val := func(sv *api.SecretValue, err error) ops.Result {
+	res := func(err error) ops.Result {
 		r := ops.Result{Class: realdb.Classify(err)}
+		if err != nil {
+			r.Err = err.Error()
+		}
+		return r
+	}
+	val := func(sv *api.SecretValue, err error) ops.Result {
+		r := res(err)
 		if sv != nil && err == nil {
 			r.Version, r.Bytes, r.HasVal = uint32(sv.Version), string(sv.Value), true
 		}
@@ -432,14 +473,14 @@ func viaClient(cl setec.Client, op ops.Op) ops.Result {
 	switch op.Kind {
 	case ops.List:
 		l, err := cl.List(ctx)
-		r := ops.Result{Class: realdb.Classify(err)}
+		r := res(err)
 		if err == nil {
 			r.Meta = realdb.ListString(l)
 		}
 		return r
 	case ops.Info:
 		in, err := cl.Info(ctx, op.Name)
-		r := ops.Result{Class: realdb.Classify(err)}
+		r := res(err)
 		if err == nil {
 			r.Meta = realdb.InfoString(in)
 		}
@@ -452,13 +493,15 @@ func viaClient(cl setec.Client, op ops.Op) ops.Result {
 		return val(cl.GetIfChanged(ctx, op.Name, api.SecretVersion(op.Version)))
 	case ops.Put:
 		v, err := cl.Put(ctx, op.Name, op.Value)
-		return ops.Result{Class: realdb.Classify(err), Version: uint32(v)}
+		r := res(err)
+		r.Version = uint32(v)
+		return r
 	case ops.Act:
-		return ops.Result{Class: realdb.Classify(cl.Activate(ctx, op.Name, api.SecretVersion(op.Version)))}
+		return res(cl.Activate(ctx, op.Name, api.SecretVersion(op.Version)))
 	case ops.DelVer:
-		return ops.Result{Class: realdb.Classify(cl.DeleteVersion(ctx, op.Name, api.SecretVersion(op.Version)))}
+		return res(cl.DeleteVersion(ctx, op.Name, api.SecretVersion(op.Version)))
 	case ops.Delete:
-		return ops.Result{Class: realdb.Classify(cl.Delete(ctx, op.Name))}
+		return res(cl.Delete(ctx, op.Name))
 	}
 	panic("bad op")
 }
